@@ -43,7 +43,7 @@
 
    A schedule is a list of thread ids; [gstep t] lets thread t do its next atomic step (nothing happens when t does
    not exist, has finished, or waits for the mutex).  No proofs in this file. *)
-From Coq Require Import List ZArith Bool Arith.
+From Coq Require Import List ZArith NArith Bool Arith.
 Import ListNotations.
 Local Open Scope Z_scope.
 
@@ -256,12 +256,13 @@ Arguments MEnterRacy {R C A X V}.
    A small concrete instance (used by the Examples and by the extracted runner that checks/c09.py drives):
    rules = list of thresholds (with a "disabled" flag each); a scanner = (external variable, error flag, trace);
    scanning the value a appends, per enabled rule, whether threshold <= a + external; a negative a is an error
-   (callback abort / timeout): it sets the error flag and appends nothing. *)
+   (callback abort / timeout): it sets the error flag and appends nothing, and nothing is scanned after an error. *)
 Definition irules := list (Z * bool).
 Record ictx := mkICtx { ic_ext : Z; ic_err : bool; ic_trace : list Z }.
 
 Definition i_scan (r : irules) (a : Z) (c : ictx) : ictx :=
-  if a <? 0 then mkICtx (ic_ext c) true (ic_trace c)
+  if ic_err c then c
+  else if a <? 0 then mkICtx (ic_ext c) true (ic_trace c)
   else mkICtx (ic_ext c) (ic_err c)
          (ic_trace c ++ flat_map (fun th : Z * bool => if snd th then [] else [if fst th <=? a + ic_ext c then 1 else 0]) r).
 Definition i_create (r : irules) : ictx := mkICtx 0 false [].
@@ -288,3 +289,6 @@ Definition i_scan_call_notry (blocks : list Z) (exec report : Z) : list imop := 
 Definition i_view (g : igstate) :=
   (g_count _ _ _ _ _ g, installed _ _ _ _ _ g, g_mutex _ _ _ _ _ g, g_handler _ _ _ _ _ g,
    map (fun l : ilocal => (i_contrib l, i_in_crit l, l_tls _ _ _ _ _ l, finished _ _ _ _ _ l, l_ctx _ _ _ _ _ l)) (g_locals _ _ _ _ _ g)).
+
+(* the runner's prelude (ocaml/prelude.ml) mentions the type N: make the extraction of this part alone contain it *)
+Definition i_unused_n : N := 0%N.
